@@ -126,7 +126,7 @@ def run(spec):
                               'model_verdict': r['verdict'],
                               'rerun_cmd': f'cd {HERE} && ./check {prop} --replay <this file>'})
             violations.append(f'VIOLATION property={prop} replay={p}')
-    elif ties or not proof_ok:
+    if not violations and (ties or not proof_ok):
         if not proof_ok:
             p = write_replay(prop, f'proof-{base_seed}.json',
                              {'property': prop, 'kind': 'proof', 'problems': audit['problems'], 'build_log': build_log[-3000:],
